@@ -111,19 +111,23 @@ def read_lines(ax):
 
 
 def read_scatter(ax):
-    """PathCollections in drawing order: dict(label, xy (n,2), colors (n,4) or (1,4), mapped,
+    """PathCollections in drawing order: dict(label, xy (n,2), hidden (n,), colors (n,4) or (1,4), mapped,
     values, vmin, vmax)."""
     from matplotlib.collections import PathCollection
     out = []
     for col in ax.collections:
         if not isinstance(col, PathCollection):
             continue
-        xy = np.ma.filled(np.ma.asarray(col.get_offsets(), dtype=float), np.nan).reshape(-1, 2)
+        # Axes.scatter masks the offsets of points whose colour value / size is non-finite but keeps the
+        # coordinates it was handed: xy is what the caller passed, hidden says which of them are masked
+        off = np.ma.asarray(col.get_offsets(), dtype=float)
+        xy = np.array(np.ma.getdata(off), dtype=float).reshape(-1, 2)
+        hidden = np.ma.getmaskarray(off).reshape(-1, 2).any(axis=1)
         arr = col.get_array()
         if arr is not None:
             arr = np.ma.asarray(arr, dtype=float)
             cols = np.asarray(col.cmap(col.norm(arr)), dtype=float).reshape(-1, 4)
-            out.append(dict(label=col.get_label(), xy=xy, colors=cols, mapped=True,
+            out.append(dict(label=col.get_label(), xy=xy, hidden=hidden, colors=cols, mapped=True,
                             values=np.ma.filled(arr, np.nan),
                             vmin=None if col.norm.vmin is None else float(col.norm.vmin),
                             vmax=None if col.norm.vmax is None else float(col.norm.vmax)))
@@ -131,7 +135,7 @@ def read_scatter(ax):
             fc = np.asarray(col.get_facecolor(), dtype=float).reshape(-1, 4)
             if len(fc) == 0:          # unfilled markers ('x', '+', ...) carry the colour on the edge
                 fc = np.asarray(col.get_edgecolor(), dtype=float).reshape(-1, 4)
-            out.append(dict(label=col.get_label(), xy=xy, colors=fc,
+            out.append(dict(label=col.get_label(), xy=xy, hidden=hidden, colors=fc,
                             mapped=False, values=None, vmin=None, vmax=None))
     return out
 
